@@ -348,7 +348,11 @@ func checkEffects(r *Run, prog *Program, a *Anchors, pfx string, evalOnly bool) 
 				q := st.Obj().Pkg().Path() + "." + st.Obj().Name()
 				switch q {
 				case grammarPath + ".parser":
-					r.Check(pfx+".per-call-allocation", "parser@"+fn.Name(), prog.pos(al.Pos()), fn.Name() == "newParser", "a parser is allocated outside newParser")
+					okP := fn.Name() == "newParser"
+					if np := prog.GrammarSSA.Func("newParser"); !okP && np != nil && ctorPart(prog, np, fn) {
+						okP = true // a part of the constructor
+					}
+					r.Check(pfx+".per-call-allocation", "parser@"+fn.Name(), prog.pos(al.Pos()), okP, "a parser is allocated outside newParser")
 				case modPath + ".options":
 					// value copies in locals are not shared; only an escaping allocation can be handed to option closures
 					if al.Heap {
